@@ -1,3 +1,26 @@
 package main
-import ("fmt";"os";"strconv";"strings";"zombiezen.com/go/commonmark";"zombiezen.com/go/commonmark/format")
-func main(){ for _,a:=range os.Args[1:]{ s,err:=strconv.Unquote(`"`+a+`"`); if err!=nil{s=a}; blocks,refs:=commonmark.Parse([]byte(s)); var sb,h1,h2 strings.Builder; format.Format(&sb,blocks); commonmark.RenderHTML(&h1,blocks,refs); b2,r2:=commonmark.Parse([]byte(sb.String())); commonmark.RenderHTML(&h2,b2,r2); fmt.Printf("%q\n  fmt=> %q\n  html1 %q\n  html2 %q same=%v\n",s,sb.String(),h1.String(),h2.String(),h1.String()==h2.String()) } }
+
+import (
+	"fmt"
+	"os"
+	"strconv"
+	"strings"
+	"zombiezen.com/go/commonmark"
+	"zombiezen.com/go/commonmark/format"
+)
+
+func main() {
+	for _, a := range os.Args[1:] {
+		s, err := strconv.Unquote(`"` + a + `"`)
+		if err != nil {
+			s = a
+		}
+		blocks, refs := commonmark.Parse([]byte(s))
+		var sb, h1, h2 strings.Builder
+		format.Format(&sb, blocks)
+		commonmark.RenderHTML(&h1, blocks, refs)
+		b2, r2 := commonmark.Parse([]byte(sb.String()))
+		commonmark.RenderHTML(&h2, b2, r2)
+		fmt.Printf("%q\n  fmt=> %q\n  html1 %q\n  html2 %q same=%v\n", s, sb.String(), h1.String(), h2.String(), h1.String() == h2.String())
+	}
+}
